@@ -138,6 +138,16 @@ CHECKS.update({
     ),
 })
 
+CHECKS.update({
+    "C12": dict(
+        engine="E1+E2+E3",
+        category="exploration",
+        text="Generated histories ending in a generated permutation of dropping {Ring, queue handles, AsyncFd, every future (unpolled/blocked/queued/running/abandoned/finished), ReadBufPool, ReadBufs}, some drops on a helper thread, then wake(): no panic, ring mappings unmapped exactly once with the right length, ring descriptor closed once and last, Ring drop submits/cancels/reclaims, pool memory never freed while registered, no descriptor, registration, heap block or waker clone left behind.",
+        design_ref="5/C12",
+        technique="model-based property testing with generated teardown permutations; mmap/close ledger (libc interposition) and allocation-tracker oracles",
+    ),
+})
+
 NOT_YET = {
 }
 
